@@ -681,7 +681,12 @@ def classify(spec, env, split, fail):
     if fail.step < 0:
         return "at-construction"
     if spec.classify is not None:
-        d = spec.classify(info)
+        try:
+            d = spec.classify(info)
+        except Exception:     # noqa
+            # the detail only separates recorded findings from everything else: a classifier that cannot digest this
+            # failure must not hide it (it stays a violation, with the generic detail)
+            d = None
         if d:
             return d
     return "other"
